@@ -652,27 +652,28 @@ WITNESS_SLUGS = {
     "C19_witness_error_path_no_document": ["error_path_no_document"],
     "C19_witness_error_path_no_document_undo": ["error_path_no_document"],
     "C19_witness_replace_json_quiet_no_document": ["replace_json_quiet_no_document"],
-    "C19_witness_search_mode_required_fields": ["search_mode_required_fields"],
     "C19_witness_history_shape_mismatch": ["history_shape_mismatch"],
     "C19_witness_status_shape_mismatch": ["status_shape_mismatch"],
-    "C19_witness_replace_early_return": ["replace_json_not_applied", "replace_quiet_not_applied"],
+    "C19_witness_replace_early_return": ["replace_json_not_applied"],
     "C19_witness_replace_json_not_applied": ["replace_json_not_applied"],
-    "C19_witness_replace_quiet_not_applied": ["replace_quiet_not_applied"],
 }
 
 
 def failing_theorems(detail):
-    """names of the declarations of Props/C19.lean that the build errors point into"""
-    path = os.path.join(common.LEAN, "RModel/Props/C19.lean")
-    decl = []
-    for n, line in enumerate(open(path), 1):
-        m = re.match(r"\s*(theorem|example)\s*([\w.']*)", line)
-        if m:
-            decl.append((n, m.group(2) or "example"))
+    """names of the declarations of Props/C19.lean and its parts C19a … that the build errors point into"""
+    text = detail if isinstance(detail, str) else json.dumps(detail)
     names = set()
-    for m in re.finditer(r"RModel/Props/C19\.lean:(\d+):", detail if isinstance(detail, str) else json.dumps(detail)):
-        ln = int(m.group(1))
-        owner = [nm for n, nm in decl if n <= ln]
+    for m in re.finditer(r"RModel/Props/(C19[a-z]?)\.lean:(\d+):", text):
+        path = os.path.join(common.LEAN, "RModel/Props", m.group(1) + ".lean")
+        decl = []
+        try:
+            for n, line in enumerate(open(path), 1):
+                mm = re.match(r"\s*(theorem|example)\s*([\w.']*)", line)
+                if mm:
+                    decl.append((n, mm.group(2) or "example"))
+        except OSError:
+            pass
+        owner = [nm for n, nm in decl if n <= int(m.group(2))]
         names.add(owner[-1] if owner else "?")
     return names
 
